@@ -193,12 +193,12 @@ theorem exe_ok_inv (w : World) (p : Bytes) (h : (exe good w ⟨none⟩).2 = .ok 
 def SilentFile (w : World) (f : FileSt) : Prop :=
   w.dirExists = true ∧ f = .err .enoent ∧ Spec.zombie w = false ∧ w.statExists = true
 
-/-- the ` (deleted)` path cannot be examined (its `stat` is denied), or the link is withheld while `stat` of
+/-- the ` (deleted)` path cannot be examined (its `stat` is denied: PermissionError), or the link is withheld while `stat` of
     the process is missing / unreadable (live or not? unknown) -/
 def SilentLink (w : World) (l : LinkSt) : Prop :=
   w.dirExists = true ∧
     ((∃ t, l = .target t ∧ (stripDeleted (t.takeWhile (· != 0))).isSome = true
-        ∧ w.fs (t.takeWhile (· != 0)) = .denied)
+        ∧ (w.fs (t.takeWhile (· != 0))).isDenied = true)
      ∨ (∃ e, l = .err e ∧ e ≠ .eacces ∧ (w.statExists = false ∨ w.statReadable = false)))
 
 /-- name() has to look at a cmdline file the specification does not speak about -/
@@ -231,11 +231,14 @@ theorem environ_none_iff (w : World) : Spec.environ w = none ↔ SilentFile w w.
 
 theorem linkClean_none_iff (fs : Bytes → FsEnt) (t : Bytes) :
     linkClean fs t = none ↔ ((stripDeleted (t.takeWhile (· != 0))).isSome = true
-      ∧ fs (t.takeWhile (· != 0)) = .denied) := by
+      ∧ (fs (t.takeWhile (· != 0))).isDenied = true) := by
   unfold linkClean
   cases hsd : stripDeleted (t.takeWhile (· != 0)) with
   | none => simp [hsd]
-  | some q => cases hfs : fs (t.takeWhile (· != 0)) <;> simp [hsd, hfs]
+  | some q =>
+    cases hfs : fs (t.takeWhile (· != 0)) with
+    | unstatable en cls => cases cls <;> simp [hsd, hfs, named, FsEnt.isDenied]
+    | _ => simp [hsd, hfs, named, FsEnt.isDenied]
 
 theorem link_none_iff (w : World) (l : LinkSt) : Spec.link w l = none ↔ SilentLink w l := by
   unfold Spec.link SilentLink
@@ -301,6 +304,7 @@ theorem exeOnce_none_iff (w : World) :
       | noSuchProcess => simp
       | zombieProcess => simp
       | fileNotFound => simp
+      | osError en => simp
 
 /-- the situations about which the specification says nothing, call by call -/
 def Silent (w : World) : Call → Prop
